@@ -12,7 +12,7 @@ order of commutative operators or early-return vs else have the same term.
 This is value numbering on gated SSA; no path is enumerated, nothing is executed
 on data.  Only *constant* sub-expressions are evaluated (constant folding).
 """
-import ast
+import ast, re
 
 MAX_FOLD_LEN = 70000
 MAX_UNROLL = 4096
@@ -457,6 +457,56 @@ def shift_binders(t, base, by):
 def mentions(t, pred):
     return any(pred(x) for x in walk(t))
 
+def mk_fstr(parts):
+    """formatted string in normal form: adjacent literal pieces merged, a single literal is a constant"""
+    out = []
+    for x in parts:
+        if is_c(x) and isinstance(x[1], str):
+            if x[1] == '':
+                continue
+            if out and is_c(out[-1]):
+                out[-1] = C(out[-1][1] + x[1])
+                continue
+        out.append(x)
+    if not out:
+        return C('')
+    if len(out) == 1 and is_c(out[0]):
+        return out[0]
+    return ('fstr', tuple(out))
+
+
+_PCT = re.compile(r'%(?:(%)|([-+ #0]*)(\d*)(?:\.(\d+))?([sdcxXorf]))')
+
+
+def percent_format(fmt, arg):
+    """'literal %d text %s' % (a, b)  as the formatted string  f'literal {a} text {b}'  (plain conversions only)"""
+    args = list(arg[1]) if arg[0] == 'tuple' else [arg]
+    parts, pos, k = [], 0, 0
+    for m in _PCT.finditer(fmt):
+        if '%' in fmt[pos:m.start()]:
+            return None
+        parts.append(C(fmt[pos:m.start()]))
+        pos = m.end()
+        if m.group(1):
+            parts.append(C('%'))
+            continue
+        if k >= len(args):
+            return None
+        flags, width, prec, typ = m.group(2) or '', m.group(3) or '', m.group(4), m.group(5)
+        if typ == 'r':
+            parts.append(('fmt', args[k], C(''), 114))
+        else:
+            spec = flags + width + ('.' + prec if prec else '') + (typ if typ not in ('s', 'd', 'c') else '')
+            if typ == 'c' and (flags or width):
+                return None
+            parts.append(('fmt', args[k]) if spec == '' else ('fmt', args[k], C(spec), -1))
+        k += 1
+    if '%' in fmt[pos:] or k != len(args):
+        return None
+    parts.append(C(fmt[pos:]))
+    return mk_fstr(parts)
+
+
 def force_num(t, opts=None):
     """t is known not to be a Python sequence: rebuild `+` inside it as the commutative sum"""
     if t[0] == '+':
@@ -541,6 +591,10 @@ def mk_bin(op, a, b, opts=None):
             return C(a[1] % to_py(b))
         except Exception:
             pass
+        if isinstance(a[1], str):
+            r = percent_format(a[1], b)
+            if r is not None:
+                return r
     if op in AC_OPS or op == '+':
         items = []
         for x in (a, b):
@@ -1147,10 +1201,25 @@ class PE:
         return ('star', self.ev(n.value, env))
 
     def ev_JoinedStr(self, n, env):
-        return ('fstr', tuple(self.ev(v, env) for v in n.values))
+        parts = [self.ev(v, env) for v in n.values]
+        return mk_fstr(parts)
 
     def ev_FormattedValue(self, n, env):
-        return ('fmt', self.ev(n.value, env))
+        spec = ''
+        if n.format_spec is not None:
+            sp = self.ev(n.format_spec, env)
+            if sp[0] == 'fstr' and all(is_c(x) for x in sp[1]):
+                spec = ''.join(str(x[1]) for x in sp[1])
+            elif is_c(sp):
+                spec = str(sp[1])
+            else:
+                return ('fmt', self.ev(n.value, env), sp, n.conversion)
+        if spec in ('d', 's'):
+            spec = ''
+        conv = n.conversion if n.conversion not in (-1, 115) else -1      # !s is the default
+        if spec == '' and conv == -1:
+            return ('fmt', self.ev(n.value, env))
+        return ('fmt', self.ev(n.value, env), C(spec), conv)
 
     def ev_Lambda(self, n, env):
         return self.make_lambda(n.args, n.body, env, n)
